@@ -347,5 +347,8 @@ Proof.
     (constructor; [exact i0'' | clear i0'' ..]); prep; gen.
   all: try (pose proof (ir i) as Hir; split_eqb; simpl in *; rw_pc; simpl in *; try lia; fail).
   all: try (split_eqb; simpl in *; rw_pc; simpl in *; gen; fail).
+  all: try (split_eqb; simpl in *; rw_pc; simpl in *;
+            try (eapply ih2; eassumption); try (eapply if1; eassumption); try (eapply if2; eassumption);
+            try (destruct (in_G (lp s)) eqn:EG; [specialize (ih eq_refl); congruence | reflexivity]); fail).
   all: match goal with H : fp _ = ?p |- ?G => idtac "PC" p "|-" G end.
 Show. Abort.
